@@ -93,6 +93,17 @@ CLAIMED["C09"] = (_CHAIN,
     "router (healthy), and the recovered value is checked under CTXRecoverResult.",
     "follow-up = the same request repeated (pool residue after panics is C10's model); trusted as C04", "6 C09")
 
+CLAIMED["C12"] = (
+    "TLA+ spec RuxReg: registration as a state machine (currentGroupPrefix/currentGroupHandlers with save/restore, Use, GET, "
+    "Route.Use) vs lexical scoping read off the bracket structure of the program; model-checked with TLC for every program; "
+    "complete programs replayed on the real router; random long programs recorded statement by statement and validated by TLC",
+    "Every registration program of <=4/5 statements (nesting <=2/3): invariants RoutesAgree (path = concatenated prefixes, "
+    "middleware = enclosing groups' middleware in effect at registration, request-time chain) and NoResidue (the router's group "
+    "fields equal what the lexical position prescribes after every statement). Each complete program runs on the real router "
+    "(Group and Controller), comparing Path(), middleware count and the enter/leave order of one real request per route; recorded "
+    "programs of <=40 statements, depth <=5, are validated event by event (TraceReg) with both invariants evaluated at every step.",
+    "handlers always call Next (ordering only); clean non-root prefixes; Resource registrations are covered by C16; trusted: TLC", "6 C12")
+
 PENDING = {}
 
 
